@@ -1663,6 +1663,9 @@ def run(ctx):
     # wire names vs node labels of another type (ints, numpy ints, digit strings, mixed)
     from props import C09_labels
     C09_labels.run_suites(ctx, sys.modules[__name__])
+    # connectivity graphs whose edges / nodes carry attributes (weights, calibration data)
+    from props import C09_attrs
+    C09_attrs.run_suites(ctx, sys.modules[__name__])
     ctx.sample({"suite": "action replay", "meaning": "every CircuitMap.update/undo/execute_block call of a real ShortestPaths/Sabre run is replayed by QV.Router.step; p2l, l2p, number of routed gates and the last routed gate are compared after every action, the whole routed gate list and the layout at the end; guard bits and pickCheck come from the Lean side"})
     ctx.sample({"suite": "property search", "meaning": "connectivity of every 2-qubit gate, exact routed == P.U on Gaussian-integer operators (measurements as a fixed non-commuting marker), layout bijection, wire names, trailing measurements with registers, input not mutated, router object reused"})
     ctx.sample({"suite": "blocks model", "meaning": "QV.Blocks.blockDecomposition (transliteration of blocks.py with object identities) against the real block_decomposition for fuse=True/False: sorted qubits of every block and the gate objects in it (position in the queue + class/qubits), all X/CNOT circuits on 2 qubits up to 5 gates and 3 qubits up to 3 gates (thorough: 3 qubits up to 4, 4 qubits up to 3), seeded random circuits up to 7 qubits / 30 gates with measurements, refusals (one qubit, three-qubit gate); _find_previous_gates / _find_successive_gates / _gates_on_qubit one by one"})
